@@ -1345,6 +1345,42 @@ def rule_kindmissing(ctx) -> RuleResult:
 
 
 # ---------------------------------------------------------------------------------------------
+# R-VARSHIFT[batch] (C08, C20): the variance pivot is looked up per group AND per leading index.
+# `_var_std_wrapper` subtracts one member of each group before the sums of squares.  Leading dimensions of the data are batch dimensions:
+# the pivot of slice i must be a member of the group *in slice i* (a pivot taken from another slice couples the slices -- an infinite or
+# huge first member there turns this slice's variance into NaN / 0).  Structurally: the aggregate call that produces the pivot receives the
+# very array the subtraction's left operand names (no subscript, no sliced local), along the wrapper's own `axis`.
+def rule_varbatch(ctx) -> RuleResult:
+    res = RuleResult("R-VARSHIFT[batch]", "the variance pivot is looked up in the same batch slice it is subtracted from", min_instances=1)
+    f = ctx.prog.func("aggregate_npg._var_std_wrapper")
+    arr = f.params[1]
+    env = {a.targets[0].id: a.value for a in walk_own(f.node) if isinstance(a, ast.Assign) and len(a.targets) == 1 and isinstance(a.targets[0], ast.Name)}
+    pivots = [(a.targets[0].id, a.value) for a in walk_own(f.node) if isinstance(a, ast.Assign) and len(a.targets) == 1 and isinstance(a.targets[0], ast.Name)
+              and isinstance(a.value, ast.Call) and any(isinstance(k, ast.Constant) and k.value in ("nanfirst", "first", "nanlast", "last", "nanmean", "mean")
+                                                        for k in [kw.value for kw in a.value.keywords] + list(a.value.args))]
+    subs = [x for x in ast.walk(f.node) if isinstance(x, ast.BinOp) and isinstance(x.op, ast.Sub) and isinstance(x.left, ast.Name) and names_in(x.right) & {p for p, _ in pivots}]
+    if not subs or not pivots:
+        res.notes.append("_var_std_wrapper no longer shifts by a per-group member: rule not applicable")
+        res.min_instances = 0
+        return res
+    for sub in subs:
+        for pname, call in pivots:
+            if pname not in names_in(sub.right):
+                continue
+            data = call.args[1] if len(call.args) > 1 else kwarg(call, "array")
+            ax = kwarg(call, "axis")
+            same = isinstance(data, ast.Name) and data.id == sub.left.id and not (data.id in env and data.id != arr and isinstance(env[data.id], ast.Subscript))
+            axis_ok = ax is not None and norm(ax) == "axis"
+            res.inst(f"_var_std_wrapper: pivot '{norm(call)[:70]}' reads the array it is subtracted from ({sub.left.id}): {same}; along the wrapper's axis: {axis_ok}", f"pivot|{pname}")
+            if not (same and axis_ok):
+                why = f"from '{norm(data)[:40]}'" + (f" = {norm(env[data.id])[:50]}" if isinstance(data, ast.Name) and data.id in env and data.id != arr else "")
+                res.report("aggregate_npg._var_std_wrapper|pivot-from-other-slice", f.where(call), f.qualname,
+                           f"the pivot '{pname}' is looked up {why}, axis={norm(ax) if ax is not None else 'default'}, but subtracted from every leading slice of '{sub.left.id}': "
+                           "the slices of a stack are no longer independent (var of a stack whose first slice starts with inf / 1e300 is NaN / 0 in the other slices)")
+    return res
+
+
+# ---------------------------------------------------------------------------------------------
 # R-SCANEMPTY (C10): a zero-length block is a legal chunking of the scanned axis.
 # chunk_reduce answers a block without valid labels with ONE placeholder label -- a float NaN that "the combine drops again".  The scan
 # pipeline has no such combine: it stores chunk_reduce's `groups` as *codes* (`group_idx=reduced["groups"]`) and later uses them as
